@@ -196,7 +196,7 @@ Proof. intros [H1 H2]. split; [exact H1|exact H2]. Qed.
 Lemma wf_fresh_entry s i te names types :
   wf s -> i = st_next s ->
   (forall d j, In (d, j) types -> (d = te /\ j = i) \/ In (d, j) (st_types s)) ->
-  wf (mkSt (i + 1) (put i (mkEntry te []) (st_ents s)) names types (st_json s)).
+  wf (mkSt (i + 1) (put i (mkEntry te []) (st_ents s)) names types (st_flags s)).
 Proof.
   intros Hw -> Hty. split.
   - intros j e. unfold lk. cbn [st_ents st_next]. rewrite lookup_put.
@@ -213,7 +213,7 @@ Qed.
 
 Lemma frame_fresh_entry s te names types :
   wf s ->
-  frame s (mkSt (st_next s + 1) (put (st_next s) (mkEntry te []) (st_ents s)) names types (st_json s)).
+  frame s (mkSt (st_next s + 1) (put (st_next s) (mkEntry te []) (st_ents s)) names types (st_flags s)).
 Proof.
   intro Hw. split; [cbn [st_next]; lia|].
   intros i Hi. unfold lk. cbn [st_ents]. rewrite lookup_put.
@@ -223,7 +223,7 @@ Qed.
 Lemma assign_ok te s t s' :
   assign te s = (t, s') -> wf s ->
   (forall n, det_name te = Some n -> ~ In n (nkeys s)) ->
-  wf s' /\ frame s s' /\ realizes (lk s') t te /\ st_json s' = st_json s /\
+  wf s' /\ frame s s' /\ realizes (lk s') t te /\ st_flags s' = st_flags s /\
   names_sub s s' (match det_name te with Some n => [n] | None => [] end).
 Proof.
   intros Ha Hw Hfresh.
@@ -233,16 +233,16 @@ Proof.
          match assoc n (st_names s) with
          | Some i => (i, s)
          | None => (st_next s, mkSt (st_next s + 1) (put (st_next s) (mkEntry te0 []) (st_ents s))
-                                    ((n, st_next s) :: st_names s) (st_types s) (st_json s))
+                                    ((n, st_next s) :: st_names s) (st_types s) (st_flags s))
          end
      | None =>
          match find_type te0 (st_types s) with
          | Some i => (i, s)
          | None => (st_next s, mkSt (st_next s + 1) (put (st_next s) (mkEntry te0 []) (st_ents s)) (st_names s)
-                                    ((te0, st_next s) :: st_types s) (st_json s))
+                                    ((te0, st_next s) :: st_types s) (st_flags s))
          end
      end) = (t, s') ->
-    wf s' /\ frame s s' /\ lk s' t = Some (mkEntry te []) /\ st_json s' = st_json s /\
+    wf s' /\ frame s s' /\ lk s' t = Some (mkEntry te []) /\ st_flags s' = st_flags s /\
     names_sub s s' (match det_name te with Some n => [n] | None => [] end)).
   { intros te0 -> H.
     destruct (det_name te) as [n|] eqn:Hn.
@@ -532,14 +532,36 @@ Proof. vm_compute. reflexivity. Qed.
 Lemma int_i64_ok : int_kind_ok None s_i64 = true.
 Proof. vm_compute. reflexivity. Qed.
 
-Lemma no_extras_inv cst nv sv ai mni mxi uq mnp mxp allo anyo oneo no dflt title :
-  no_extras cst nv sv ai mni mxi uq mnp mxp allo anyo oneo no dflt title = true ->
-  mni = None /\ mxi = None /\ allo = None /\ anyo = None /\ oneo = None /\ no = None /\ nv = numv_none.
-Proof.
-  unfold no_extras. intro H. repeat (apply andb_true_iff in H; destruct H as [H ?]).
-  destruct mni, mxi, allo, anyo, oneo, no; try discriminate.
-  destruct nv as [[|] [|] [|] [|] [|]]; try discriminate. repeat split; reflexivity.
-Qed.
+(* ------------------------------------------------------------------ boolean tests of the classifier *)
+Lemma is_none_true {X} (o : option X) : is_none o = true -> o = None.
+Proof. destruct o; [discriminate|reflexivity]. Qed.
+Lemma is_nil_true {X} (l : list X) : is_nil l = true -> l = [].
+Proof. destruct l; [reflexivity|discriminate]. Qed.
+Lemma numv_is_none_true nv : numv_is_none nv = true -> nv = numv_none.
+Proof. destruct nv as [[|] [|] [|] [|] [|]]; try discriminate. reflexivity. Qed.
+Lemma strv_is_none_true sv : strv_is_none sv = true -> sv = strv_none.
+Proof. destruct sv as [[|] [|] [|]]; try discriminate. reflexivity. Qed.
+Lemma items_absent_true ik : items_absent ik = true -> ik = ItemsAbsent.
+Proof. destruct ik; try discriminate. reflexivity. Qed.
+
+Ltac bool_facts :=
+  repeat match goal with
+  | H : _ && _ = true |- _ => apply andb_true_iff in H; destruct H
+  | H : is_none _ = true |- _ => apply is_none_true in H
+  | H : is_nil _ = true |- _ => apply is_nil_true in H
+  | H : no_num _ = true |- _ => apply numv_is_none_true in H
+  | H : no_str _ = true |- _ => apply strv_is_none_true in H
+  | H : no_len _ _ = true |- _ => unfold no_len in H
+  | H : no_array _ _ = true |- _ => unfold no_array in H
+  | H : no_object _ _ _ = true |- _ => unfold no_object in H
+  | H : items_absent _ = true |- _ => apply items_absent_true in H
+  | H : negb _ = true |- _ => apply negb_true_iff in H
+  end.
+
+Lemma no_extras_inv cst ai uq mnp mxp allo anyo oneo no dflt title :
+  no_extras cst ai uq mnp mxp allo anyo oneo no dflt title = true ->
+  cst = None /\ allo = None /\ anyo = None /\ oneo = None /\ no = None.
+Proof. unfold no_extras. intro H. bool_facts. subst. repeat split; reflexivity. Qed.
 
 Lemma mem_pair_index D r : forall i0 i, ref_index D r i0 = Some i -> mem_pair (pairs_from D i0) r i = true.
 Proof.
@@ -584,28 +606,25 @@ Section Main.
   Definition own_of (te : details) : list ustring :=
     match det_name te with Some n => [n] | None => [] end.
 
+  Lemma frag_obj_inv ty fmt enum cst nv sv ik items ai mni mxi uq props req ap mnp mxp allo anyo oneo no ref dflt title :
+    frag cls keys (SObj ty fmt enum cst nv sv ik items ai mni mxi uq props req ap mnp mxp allo anyo oneo no ref dflt title) = true ->
+    exists nl k,
+      classify ty fmt enum cst nv sv ik items ai mni mxi uq props req ap mnp mxp allo anyo oneo no ref dflt title = Some (nl, k)
+      /\ cst = None /\ allo = None /\ anyo = None /\ oneo = None /\ no = None.
+  Proof.
+    cbn [frag]. destruct (classify _ _ _ _ _ _ _ _ _ _ _ _ _ _ _ _ _ _ _ _ _ _ _ _) as [[nl k]|] eqn:Hc; [|discriminate].
+    intros _. exists nl, k. split; [reflexivity|]. unfold classify in Hc.
+    destruct (no_extras cst ai uq mnp mxp allo anyo oneo no dflt title) eqn:Hne; [|discriminate].
+    exact (no_extras_inv _ _ _ _ _ _ _ _ _ _ _ Hne).
+  Qed.
+
   Lemma covers_frag_Gs T s nn t :
     frag cls keys s = true -> covers re native T A s nn (TId t) = Gs T s FT nn t.
   Proof.
     destruct s as [b|ty fmt enum cst nv sv ik items ai mni mxi uq props req ap mnp mxp allo anyo oneo no ref dflt title];
       [discriminate|].
-    cbn [frag]. destruct (classify _ _ _ _ _ _ _ _ _ _ _ _ _ _ _ _ _ _ _ _ _ _ _ _) as [[nl k]|] eqn:Hc; [|discriminate].
-    intros _. unfold classify in Hc.
-    destruct (no_extras cst nv sv ai mni mxi uq mnp mxp allo anyo oneo no dflt title) eqn:Hne; [|discriminate].
-    destruct (no_extras_inv _ _ _ _ _ _ _ _ _ _ _ _ _ _ _ Hne) as (_ & _ & -> & _).
+    intro Hf. apply frag_obj_inv in Hf. destruct Hf as (nl & k & _ & _ & -> & _).
     cbn [covers covers_obj Gs]. reflexivity.
-  Qed.
-
-  Lemma frag_obj_inv ty fmt enum cst nv sv ik items ai mni mxi uq props req ap mnp mxp allo anyo oneo no ref dflt title :
-    frag cls keys (SObj ty fmt enum cst nv sv ik items ai mni mxi uq props req ap mnp mxp allo anyo oneo no ref dflt title) = true ->
-    exists nl k,
-      classify ty fmt enum cst nv sv ik items ai mni mxi uq props req ap mnp mxp allo anyo oneo no ref dflt title = Some (nl, k)
-      /\ mni = None /\ mxi = None /\ allo = None /\ anyo = None /\ oneo = None /\ no = None /\ nv = numv_none.
-  Proof.
-    cbn [frag]. destruct (classify _ _ _ _ _ _ _ _ _ _ _ _ _ _ _ _ _ _ _ _ _ _ _ _) as [[nl k]|] eqn:Hc; [|discriminate].
-    intros _. exists nl, k. split; [reflexivity|]. unfold classify in Hc.
-    destruct (no_extras cst nv sv ai mni mxi uq mnp mxp allo anyo oneo no dflt title) eqn:Hne; [|discriminate].
-    exact (no_extras_inv _ _ _ _ _ _ _ _ _ _ _ _ _ _ _ Hne).
   Qed.
 
   Lemma Gs_option T s ft nn o t :
@@ -614,8 +633,7 @@ Section Main.
   Proof.
     destruct s as [b|ty fmt enum cst nv sv ik items ai mni mxi uq props req ap mnp mxp allo anyo oneo no ref dflt title];
       [discriminate|].
-    intros Hf Hd HG. destruct (frag_obj_inv _ _ _ _ _ _ _ _ _ _ _ _ _ _ _ _ _ _ _ _ _ _ _ _ Hf)
-      as (nl & k & _ & _ & _ & -> & -> & -> & -> & _).
+    intros Hf Hd HG. apply frag_obj_inv in Hf. destruct Hf as (nl & k & _ & _ & -> & -> & -> & ->).
     cbn [Gs] in *. eapply go_option; eassumption.
   Qed.
 
@@ -625,8 +643,7 @@ Section Main.
   Proof.
     destruct s as [b|ty fmt enum cst nv sv ik items ai mni mxi uq props req ap mnp mxp allo anyo oneo no ref dflt title];
       [discriminate|].
-    intros Hf Hd HG. destruct (frag_obj_inv _ _ _ _ _ _ _ _ _ _ _ _ _ _ _ _ _ _ _ _ _ _ _ _ Hf)
-      as (nl & k & _ & _ & _ & -> & -> & -> & -> & _).
+    intros Hf Hd HG. apply frag_obj_inv in Hf. destruct Hf as (nl & k & _ & _ & -> & -> & -> & ->).
     cbn [Gs] in *. eapply go_newtype; eassumption.
   Qed.
 
@@ -673,51 +690,62 @@ Section Main.
     flat_map (fun kv => names_of cls (snd kv) (prop_type_name cls base (fst kv))) props.
 
   (* ---------------------------------------------------------------- one node *)
-  Lemma kind_of_type_inv fmt enum ik items props req ap tt k :
-    kind_of_type fmt enum ik items props req ap tt = Some k ->
+  (* everything an arm of [kind_of_type] has tested *)
+  Lemma kind_of_type_inv fmt enum nv sv ik items mni mxi props req ap tt k :
+    kind_of_type fmt enum nv sv ik items mni mxi props req ap tt = Some k ->
+    nv = numv_none /\
+    match k with KStrC mx mn pat => sv = mkStrv mx mn pat /\ strv_is_none sv = false | _ => sv = strv_none end /\
+    match k with KVec | KVecAny => len_plain mni mxi = true | _ => mni = None /\ mxi = None end /\
+    match k with KEnum _ => True | _ => enum = None end /\
+    match k with KVec | KVecAny => True | _ => ik = ItemsAbsent /\ items = [] end /\
+    match k with KStruct _ | KMap => True | _ => props = [] /\ req = [] /\ ap = None end /\
+    match k with KInt _ => True | _ => fmt = None end /\
     match k with
     | KRef _ | KAny => False
     | KBool => tt = TBoolean
-    | KStr => tt = TString
+    | KStr | KStrC _ _ _ => tt = TString
     | KNull => tt = TNull
     | KNum => tt = TNumber
     | KEnum raws => tt = TString /\ exists es, enum = Some es /\ jstrs es = Some raws
     | KInt r => tt = TInteger /\ ((fmt = None /\ r = s_i64) \/ exists f, fmt = Some f /\ assoc f int_format_type = Some r)
     | KStruct deny => tt = TObject /\ ap_simple ap = Some deny
-    | KMap => tt = TObject /\ props = []
+    | KMap => tt = TObject /\ props = [] /\ req = [] /\ match ap with Some (SBool false) => False | _ => True end
     | KVec => tt = TArray /\ ik = ItemsSingle /\ exists it, items = [it]
-    | KVecAny => tt = TArray /\ ik = ItemsAbsent
+    | KVecAny => tt = TArray /\ ik = ItemsAbsent /\ items = []
     end.
   Proof.
     unfold kind_of_type. destruct tt.
-    - destruct (_ && _); intro H; [injection H as <-; reflexivity|discriminate].
-    - destruct (_ && _); intro H; [injection H as <-; reflexivity|discriminate].
-    - destruct (_ && _); [|discriminate]. destruct fmt as [f|].
+    - destruct (_ && _) eqn:Hc; intro H; [injection H as <-|discriminate]. bool_facts. subst. repeat split; reflexivity.
+    - destruct (_ && _) eqn:Hc; intro H; [injection H as <-|discriminate]. bool_facts. subst. repeat split; reflexivity.
+    - destruct (_ && _) eqn:Hc; [|discriminate]. bool_facts. subst. destruct fmt as [f|].
       + destruct (assoc f int_format_type) as [r|] eqn:E; cbn [option_map]; intro H; [|discriminate].
-        injection H as <-. split; [reflexivity|]. right. exists f. split; [reflexivity|exact E].
-      + intro H. injection H as <-. split; [reflexivity|]. left. split; reflexivity.
-    - destruct (_ && _); intro H; [injection H as <-; reflexivity|discriminate].
-    - destruct (_ && _); [|discriminate]. destruct enum as [es|].
-      + destruct (jstrs es) as [[|r raws]|] eqn:E; intro H; try discriminate.
-        injection H as <-. split; [reflexivity|]. exists es. split; [reflexivity|exact E].
-      + intro H. injection H as <-. reflexivity.
-    - destruct (_ && _); [|discriminate].
+        injection H as <-. repeat split; try reflexivity. right. exists f. split; [reflexivity|exact E].
+      + intro H. injection H as <-. repeat split; try reflexivity. left. split; reflexivity.
+    - destruct (_ && _) eqn:Hc; intro H; [injection H as <-|discriminate]. bool_facts. subst. repeat split; reflexivity.
+    - destruct (_ && _) eqn:Hc; [|discriminate]. bool_facts. subst. destruct enum as [es|].
+      + destruct (no_str sv) eqn:Hs; [|discriminate]. apply strv_is_none_true in Hs. subst.
+        destruct (jstrs es) as [[|r raws]|] eqn:E; intro H; try discriminate.
+        injection H as <-. repeat split; try reflexivity. exists es. split; [reflexivity|exact E].
+      + destruct (no_str sv) eqn:Hs; intro H; injection H as <-.
+        * apply strv_is_none_true in Hs. subst. repeat split; reflexivity.
+        * repeat split; try reflexivity; try exact Hs. destruct sv; reflexivity.
+    - destruct (_ && _) eqn:Hc; [|discriminate]. bool_facts. subst.
       destruct ik; destruct items as [|it [|it2 items]]; intro H; try discriminate; injection H as <-.
-      + split; [reflexivity|reflexivity].
-      + split; [reflexivity|]. split; [reflexivity|]. exists it. reflexivity.
-    - destruct (_ && _); [|discriminate].
+      + repeat split; try reflexivity; assumption.
+      + repeat split; try reflexivity; try assumption. exists it. reflexivity.
+    - destruct (_ && _) eqn:Hc; [|discriminate]. bool_facts. subst.
       destruct (is_nil props && is_nil req && negb _) eqn:E.
-      + intro H. injection H as <-. split; [reflexivity|].
-        apply andb_true_iff in E. destruct E as [E _]. apply andb_true_iff in E. destruct E as [E _].
-        destruct props; [reflexivity|discriminate].
+      + intro H. injection H as <-. bool_facts. subst. repeat split; try reflexivity.
+        destruct ap as [[[|]|]|]; try exact I. discriminate.
       + destruct (ap_simple ap) as [dn|] eqn:E2; cbn [option_map]; intro H; [|discriminate].
-        injection H as <-. split; reflexivity.
+        injection H as <-. repeat split; reflexivity.
   Qed.
 
   Definition frag_kind (k : kind) (items : list schema) (props : list (ustring * schema))
              (req : list ustring) (ap : option schema) : bool :=
     match k with
     | KEnum raws => match Sanitize.variant_idents cls raws with Sanitize.Ok _ => true | _ => false end
+    | KStrC mx mn pat => strc_ok mx mn pat
     | KStruct _ =>
         keys_sorted (map fst props) && forallb (fun r => has_key r props) req
         && Sanitize.unique (field_idents cls props) && forallb (fun kv => frag cls keys (snd kv)) props
@@ -748,17 +776,19 @@ Section Main.
   Lemma classify_cases ty fmt enum cst nv sv ik items ai mni mxi uq props req ap mnp mxp allo anyo oneo no ref dflt title nl k :
     classify ty fmt enum cst nv sv ik items ai mni mxi uq props req ap mnp mxp allo anyo oneo no ref dflt title = Some (nl, k) ->
     (exists l tt, ty = Some l /\ ref = None /\ split_type l = Some (nl, tt)
-                  /\ kind_of_type fmt enum ik items props req ap tt = Some k)
-    \/ (ty = None /\ nl = false /\ ((exists r, ref = Some r /\ k = KRef r) \/ (ref = None /\ k = KAny))).
+                  /\ kind_of_type fmt enum nv sv ik items mni mxi props req ap tt = Some k)
+    \/ (ty = None /\ nl = false /\ nv = numv_none /\ sv = strv_none /\ mni = None /\ mxi = None /\
+        fmt = None /\ enum = None /\ ik = ItemsAbsent /\ items = [] /\ props = [] /\ req = [] /\ ap = None /\
+        ((exists r, ref = Some r /\ k = KRef r) \/ (ref = None /\ k = KAny))).
   Proof.
-    unfold classify. destruct (negb (no_extras _ _ _ _ _ _ _ _ _ _ _ _ _ _ _)); [discriminate|].
+    unfold classify. destruct (negb (no_extras _ _ _ _ _ _ _ _ _ _ _)); [discriminate|].
     destruct ty as [l|].
     - destruct ref as [r|]; [discriminate|]. cbn [is_none negb].
       destruct (split_type l) as [[nl' tt]|] eqn:Hs; [|discriminate].
-      destruct (kind_of_type fmt enum ik items props req ap tt) as [k'|] eqn:Hk; cbn [option_map]; intro H; [|discriminate].
+      destruct (kind_of_type fmt enum nv sv ik items mni mxi props req ap tt) as [k'|] eqn:Hk; cbn [option_map]; intro H; [|discriminate].
       injection H as <- <-. left. exists l, tt. repeat split; assumption.
-    - destruct (_ && _); [|discriminate].
-      destruct ref as [r|]; intro H; injection H as <- <-; right; (split; [reflexivity|split; [reflexivity|]]).
+    - destruct (_ && _) eqn:Hc; [|discriminate]. bool_facts. subst.
+      destruct ref as [r|]; intro H; injection H as <- <-; right; repeat (split; [reflexivity|]).
       + left. exists r. split; reflexivity.
       + right. split; reflexivity.
   Qed.
@@ -774,7 +804,8 @@ Section Main.
     destruct (names_of cls sch (NRequired d)) as [|m r] eqn:Hn.
     - split; [apply incl_refl|]. intros _. constructor.
     - destruct (match classify_s sch with
-                | Some (false, KEnum _) | Some (false, KStruct _) => true | _ => false end) eqn:Htop.
+                | Some (false, KEnum _) | Some (false, KStruct _) | Some (false, KStrC _ _ _) => true
+                | _ => false end) eqn:Htop.
       + split; [|intro H; exact H].
         assert (Hm : m = san d).
         { destruct sch as [b|ty fmt enum cst nv sv ik items ai mni mxi uq props req ap mnp mxp allo anyo oneo no ref dflt title];
@@ -785,24 +816,6 @@ Section Main.
             injection Hn as <- _; reflexivity. }
         subst m. intros x [<-|Hx]; [left; reflexivity|exact Hx].
       + split; [apply incl_refl|]. intro H. inversion H; assumption.
-  Qed.
-
-  Lemma conv_top_named nm s0 te s1 sch :
-    cvf sch nm s0 = Some (te, s1) ->
-    match classify_s sch with
-    | Some (false, KEnum _) | Some (false, KStruct _) => det_name te <> None
-    | _ => True
-    end.
-  Proof.
-    destruct sch as [b|ty fmt enum cst nv sv ik items ai mni mxi uq props req ap mnp mxp allo anyo oneo no ref dflt title];
-      [intros _; exact I|].
-    cbn [conv classify_s].
-    destruct (classify _ _ _ _ _ _ _ _ _ _ _ _ _ _ _ _ _ _ _ _ _ _ _ _) as [[[|] k]|]; try (intros _; exact I).
-    destruct k; try (intros _; exact I); cbn [conv_node conv_kind].
-    - destruct (type_name cls nm); [|discriminate]. unfold mk_enum.
-      destruct (Sanitize.variant_idents cls raws); try discriminate. intro H. injection H as <- _. discriminate.
-    - destruct (type_name cls nm); [|discriminate]. destruct (conv_props _ _ _ _ _ _); [|discriminate].
-      destruct p as [ps sa]. destruct (Sanitize.unique _); [|discriminate]. intro H. injection H as <- _. discriminate.
   Qed.
 
   Lemma ref_index_nth : forall (l : defs) r i0 i,
@@ -906,7 +919,9 @@ Section Main.
   Proof.
     intros Hfk HTi HTp HTa Hshape Hnm.
     destruct (type_name_some nm Hnm) as (n & Hn).
-    destruct k as [| | | |r|raws|deny| | | |r|]; cbn [conv_kind]; try discriminate.
+    destruct k as [| | | |mx mn pat|r|raws|deny| | | |r|]; cbn [conv_kind]; try discriminate.
+    - (* KStrC *)
+      destruct (assign DString _). rewrite Hn. discriminate.
     - (* KEnum *)
       rewrite Hn. unfold mk_enum. cbn [frag_kind] in Hfk.
       destruct (Sanitize.variant_idents cls raws); try discriminate Hfk. discriminate.
@@ -953,13 +968,14 @@ Section Main.
       intros Hf nm s0 Hnm.
       destruct (frag_obj_inv _ _ _ _ _ _ _ _ _ _ _ _ _ _ _ _ _ _ _ _ _ _ _ _ Hf)
         as (nl & k & Hcl & _).
-      pose proof (classify_cases _ _ _ _ _ _ _ _ _ _ _ _ _ _ _ _ _ _ _ _ _ _ _ _ _ _ Hcl) as Hcases.
+      pose proof Hcl as Hcases. apply classify_cases in Hcases.
       cbn [frag] in Hf. rewrite Hcl in Hf. change (frag_kind k items props req ap = true) in Hf.
       cbn [conv]. rewrite Hcl.
       assert (Hshape : match k with KVec => exists it, items = [it] | _ => True end).
       { destruct k; try exact I.
-        destruct Hcases as [(l & tt & _ & _ & _ & Hk)|(_ & _ & [(r & _ & Hk)|(_ & Hk)])]; try discriminate Hk.
-        pose proof (kind_of_type_inv _ _ _ _ _ _ _ _ _ Hk) as Hi. cbn in Hi. exact (proj2 (proj2 Hi)). }
+        destruct Hcases as [(l & tt & _ & _ & _ & Hk)|(_ & _ & _ & _ & _ & _ & _ & _ & _ & _ & _ & _ & _ & [(r & _ & Hk)|(_ & Hk)])];
+          try discriminate Hk.
+        apply kind_of_type_inv in Hk. destruct Hk as (_ & _ & _ & _ & _ & _ & _ & Hi). exact (proj2 (proj2 Hi)). }
       assert (Hin : name_opt (inner_name nm) <> None).
       { destruct nm; cbn [inner_name name_opt]; try discriminate. exact Hnm. }
       destruct nl; cbn [conv_node].
